@@ -7,6 +7,7 @@ pub mod c05;
 pub mod c06;
 pub mod c07;
 pub mod c09;
+pub mod c13;
 pub mod c15;
 mod c15_hash;
 mod c15_json;
@@ -25,6 +26,7 @@ pub fn all() -> Vec<CheckSpec> {
         c06::spec(),
         c07::spec(),
         c09::spec(),
+        c13::spec(),
         c15::spec(),
         c16::spec(),
         c17::spec(),
